@@ -13,7 +13,7 @@
 //!
 //! usage: par_harness CASEFILE [--iters N] [--sched pct|random] [--seed S] [--pct-depth D]
 //!                    [--max-steps M] [--trace-dir DIR] [--trace-cap N] [--only CASEID]
-//!                    [--replay-schedule FILE] [--selftest-deadlock]
+//!                    [--replay-schedule FILE] [--selftest-deadlock] [--fetch-trace]
 //!
 //! Output (stdout), per case:
 //!   CASE id
@@ -533,6 +533,9 @@ fn run_history(case: &Case, seq: bool, mode_seed: u64) -> IterObs {
         }
     }
     REV.store(current_revision(&db), Ordering::SeqCst);
+    for (idx, fam) in &fam_of {
+        note(&format!("ing {idx} {fam}"));
+    }
 
     let mut out = IterObs {
         results: Vec::new(),
@@ -567,6 +570,7 @@ fn run_history(case: &Case, seq: bool, mode_seed: u64) -> IterObs {
                     out.results.push((idx, vec![("m".into(), vec![Res::P(panic_code(p.as_ref()))])]));
                 }
                 REV.store(current_revision(&db), Ordering::SeqCst);
+                note(&format!("set {i} {f} {v}"));
             }
             Op::Synth(d) => {
                 let d = dur_of(*d);
@@ -575,9 +579,11 @@ fn run_history(case: &Case, seq: bool, mode_seed: u64) -> IterObs {
                     out.results.push((idx, vec![("m".into(), vec![Res::P(panic_code(p.as_ref()))])]));
                 }
                 REV.store(current_revision(&db), Ordering::SeqCst);
+                note("synth");
             }
             Op::Get(f, k) => {
-                let r = guarded(|| call_fam(&db, &cd, *f, *k));
+                note("who m");
+                let r = noted_get(&db, &cd, *f, *k);
                 out.results.push((idx, vec![("m".into(), vec![r])]));
             }
             Op::Par(groups) if seq => {
@@ -634,11 +640,27 @@ fn run_history(case: &Case, seq: bool, mode_seed: u64) -> IterObs {
     out
 }
 
+/// a marker in the H2/H10 protocol log (feature `fetchtrace`: needs hook H10's `verif_note`)
+#[allow(unused_variables)]
+fn note(text: &str) {
+    #[cfg(feature = "fetchtrace")]
+    salsa::verif_note(text);
+}
+
+/// one top-level request, bracketed by `get F K` / `ret R` notes
+fn noted_get(db: &Db, cd: &CaseData, f: u8, k: usize) -> Res {
+    note(&format!("get {f} {k}"));
+    let r = guarded(|| call_fam(db, cd, f, k));
+    note(&format!("ret {r}"));
+    r
+}
+
 fn thread_body(t: usize, db: Db, cd: Arc<CaseData>, gets: Vec<(u8, usize)>, seed: u64) -> Vec<Res> {
     TID.with(|c| c.set(t));
     ENTERED_ONCE.with(|e| e.set(false));
     TRNG.with(|r| r.set((seed ^ ((t as u64 + 1) << 32)) | 1));
-    let rs = gets.iter().map(|(f, k)| guarded(|| call_fam(&db, &cd, *f, *k))).collect();
+    note(&format!("who {t}"));
+    let rs = gets.iter().map(|(f, k)| noted_get(&db, &cd, *f, *k)).collect();
     drop(db);
     rs
 }
@@ -697,6 +719,8 @@ struct Args {
     only: Option<String>,
     replay_schedule: Option<String>,
     selftest_deadlock: bool,
+    /// switch hook H10's memo-table records and the harness notes on (feature `fetchtrace`)
+    fetch_trace: bool,
 }
 
 fn parse_args() -> Args {
@@ -712,6 +736,7 @@ fn parse_args() -> Args {
         only: None,
         replay_schedule: None,
         selftest_deadlock: false,
+        fetch_trace: false,
     };
     let mut it = std::env::args().skip(1);
     while let Some(k) = it.next() {
@@ -727,6 +752,7 @@ fn parse_args() -> Args {
             "--only" => a.only = Some(v()),
             "--replay-schedule" => a.replay_schedule = Some(v()),
             "--selftest-deadlock" => a.selftest_deadlock = true,
+            "--fetch-trace" => a.fetch_trace = true,
             other if !other.starts_with("--") && a.file.is_empty() => a.file = other.to_string(),
             other => panic!("unknown argument {other}"),
         }
@@ -1012,7 +1038,14 @@ fn main() {
         args.sched = "os".into();
     }
     if let Some(d) = &args.trace_dir {
+        std::fs::create_dir_all(d).expect("create trace directory");
         std::fs::create_dir_all(sched_dir(d)).expect("create trace directory");
+    }
+    if args.fetch_trace {
+        #[cfg(feature = "fetchtrace")]
+        salsa::verif_fetch_trace(true);
+        #[cfg(not(feature = "fetchtrace"))]
+        panic!("--fetch-trace needs the `fetchtrace` feature (hook H10 in the salsa tree)");
     }
     let args = Arc::new(args);
     let text = std::fs::read_to_string(&args.file).expect("usage: par_harness CASEFILE [options]");
